@@ -275,8 +275,10 @@ func init() {
 	Register(&Prop{
 		ID:        "C05",
 		Technique: "bounded exhaustive enumeration of schema projects x every subset of type definitions registered or withheld x unreferenced extra types, judged by a reachability reference over the model",
-		Rule: "roots with one or two reference sites from the 8 positions (value shortcut, @a | @b, key shortcut, type, or string item, or {type} item, allOf scalar and list, additionalProperties) at the root, in a property, in an array item; 4 closed definitions (string, object, object->string, object->object->string) x all 16 registered subsets x {0,1,2} unreferenced valid types; clauses: UsedUserTypes() = names in the root text without duplicates; 1302 naming a missing type iff a name reachable through registered definitions is unregistered; extras change no observable; non-trivial = projects outside the excluded region",
-		Bounds: func(tier string) map[string]any { return map[string]any{"sites": len(c05Sites()), "roots": len(c05Roots()), "definitions": 4} },
+		Rule:      "roots with one or two reference sites from the 8 positions (value shortcut, @a | @b, key shortcut, type, or string item, or {type} item, allOf scalar and list, additionalProperties) at the root, in a property, in an array item; 4 closed definitions (string, object, object->string, object->object->string) x all 16 registered subsets x {0,1,2} unreferenced valid types; clauses: UsedUserTypes() = names in the root text without duplicates; 1302 naming a missing type iff a name reachable through registered definitions is unregistered; extras change no observable; non-trivial = projects outside the excluded region",
+		Bounds: func(tier string) map[string]any {
+			return map[string]any{"sites": len(c05Sites()), "roots": len(c05Roots()), "definitions": 4}
+		},
 		Run: func(w *core.W) {
 			var i int64
 			for _, r := range c05Roots() {
